@@ -1,5 +1,6 @@
 SPECIFICATION Spec
 CONSTANTS
+  MaxFeats = 2
   Mode = "update"
   NSources = 1
   PoolSize = 2
